@@ -104,6 +104,7 @@ func init() {
 			func(s *e1.Stats) bool { return marks(s, "departure:rich") })
 		partDepartureCauses(c, a)
 		partStepThrough(c, a, []string{"leave", "switch", "lastleave", "join", "compadd-vs-leave", "action-vs-leave"})
+		partStepPairs(c, a, [][2]string{{"leave", "leave2"}, {"leave", "join2"}, {"switch", "join2"}})
 		return a.finish(c)
 	}
 }
